@@ -2,7 +2,9 @@
      (a) repeated or late metadata            (b) interleaved or clashing families      (c) units
      (d) repeated '# EOF'                     (e) histogram groups: _count against the +Inf bucket and the bucket rules
                                                   for EVERY group and every placement inside the group
-     (f) timestamps inside a group, lifted to the document.
+     (f) timestamps inside a group, lifted to the document
+     (g) (f) and the family switch hold in every non-histogram family after ANY prefix: the exemption of native-histogram
+         samples from the group block belongs to the line, it does not outlive the histogram family.
    Statements only.  Model: model/OMParser.v; proofs: proofs/OMRulesProofs.v (and proofs/OMRulesLines.v for the concrete
    metadata lines).  As in C15.v every theorem holds for ARBITRARY oracles and both settings of every repair flag, and
    `is_err r` = exists e, r = Err e.
@@ -364,6 +366,48 @@ Section C15b.
     intros text a l1 l2 b st acc name s1 s2 gd1 gd2 H. intros. unfold om_parse. rewrite H.
     eapply timestamps_two_lines_document with (s1 := s1) (s2 := s2) (gd1 := gd1) (gd2 := gd2); eassumption.
   Qed.
+  (* =========================== (g) the native-histogram exemption belongs to the line =========================== *)
+  (* A native-histogram sample skips the family switch and the whole group block (timestamp presence, timestamps going
+     backwards, interleaved groups).  That exemption is decided by the line itself and the type of the family in progress:
+     in a family that is not a histogram NO line carries it, whatever the document held before - in particular after a
+     histogram family whose last sample was a native histogram.  (The state of the model has no such flag; the theorems
+     below make the consequence explicit for a reader of the source, where `is_nh` is a variable of the line loop.) *)
+  Theorem C15b_native_flag_needs_histogram : forall typ line s nh,
+    om_typ_is typ OM_histogram = false -> read_sample typ line = Ok (s, nh) -> nh = false.
+  Proof. intros. eapply read_sample_flag; eassumption. Qed.
+
+  (* the group rules of (f) for every family that is not a histogram, after ANY accepted prefix, with no assumption on
+     how the two lines were classified *)
+  Theorem C15b_sample_line_group_rejected_any_flag : forall st line s nh name,
+    om_typ_is (st_typ st) OM_histogram = false -> read_sample (st_typ st) line = Ok (s, nh) ->
+    mem_str (os_name s) (st_allowed st) = true -> st_name st = Some name ->
+    is_err (group_step st name s) -> is_err (sample_line st line).
+  Proof. intros. eapply sample_line_group_err_any_flag; eassumption. Qed.
+
+  Theorem C15b_timestamps_two_lines_after_any_prefix : forall text a l1 l2 b st acc name s1 s2 nh1 nh2 gd1 gd2,
+    om_lines text = a ++ l1 :: l2 :: b ->
+    prefix st0 a [] = Ok (st, acc) -> st_name st = Some name -> om_typ_is (st_typ st) OM_histogram = false ->
+    mem_str (os_name s1) (st_allowed st) = true -> mem_str (os_name s2) (st_allowed st) = true ->
+    is_sample_line l1 = true -> is_sample_line l2 = true ->
+    read_sample (st_typ st) l1 = Ok (s1, nh1) -> read_sample (st_typ st) l2 = Ok (s2, nh2) ->
+    om_group_for_sample s1 name (match st_typ st with Some t => t | None => [] end) = Ok (Some gd1) ->
+    om_group_for_sample s2 name (match st_typ st with Some t => t | None => [] end) = Ok (Some gd2) ->
+    om_kvs_eqb (sort_kv gd2) (sort_kv gd1) = true ->
+    ts_bad (st_typ st) (os_ts s1) (os_ts s2) ->
+    is_err (parse text).
+  Proof.
+    intros text a l1 l2 b st acc name s1 s2 nh1 nh2 gd1 gd2 H. intros. unfold om_parse. rewrite H.
+    eapply timestamps_two_lines_any_flag with (s1 := s1) (s2 := s2) (gd1 := gd1) (gd2 := gd2); eassumption.
+  Qed.
+
+  (* the family switch: a sample whose name the family in progress (not a histogram) does not allow is never attached
+     to it.  The family is closed (flush: its closing checks run, its names are recorded as seen) and the sample starts
+     an unknown family of its own name - which is what makes an interleaved family end in a name clash (b). *)
+  Theorem C15b_foreign_sample_switches_family : forall st line s nh st' out,
+    om_typ_is (st_typ st) OM_histogram = false -> read_sample (st_typ st) line = Ok (s, nh) ->
+    mem_str (os_name s) (st_allowed st) = false -> sample_line st line = Ok (st', out) ->
+    st_allowed st' = [os_name s] /\ st_typ st' = Some OM_unknown /\ exists seen', flush st = Ok (out, seen').
+  Proof. intros. eapply foreign_sample_switches_family; eassumption. Qed.
 End C15b.
 
 (* ---- non-vacuity: concrete documents, lines, states and sample lists meeting the hypotheses of each theorem, evaluated with
@@ -803,6 +847,59 @@ Proof.
   conjs; fin.
 Qed.
 
+(* (g) a native-histogram family in front of the offending family: the line before '# TYPE a gauge' IS read as a native
+   histogram (flag true), the two lines of the gauge group are not, and the documents are rejected *)
+Definition ex_nh_then_back := "# TYPE h histogram
+h {count:1,sum:1,schema:0,zero_threshold:0,zero_count:0}
+# TYPE a gauge
+a{x=""2""} 1 5
+a{x=""2""} 2 4
+# EOF
+"%string.
+Definition ex_nh_then_partial := "# TYPE h histogram
+h {count:1,sum:1,schema:0,zero_threshold:0,zero_count:0}
+# TYPE a gauge
+a{x=""2""} 1 5
+a{x=""2""} 2
+# EOF
+"%string.
+Definition ex_nh_then_interleaved := "# TYPE h histogram
+h {count:1,sum:1,schema:0,zero_threshold:0,zero_count:0}
+# TYPE g gauge
+g 1
+# TYPE k gauge
+k 1
+g 2
+# EOF
+"%string.
+Definition ex_nh_a := [L "# TYPE h histogram"; L "h {count:1,sum:1,schema:0,zero_threshold:0,zero_count:0}"; L "# TYPE a gauge"].
+Definition ex_nh_k := [L "# TYPE h histogram"; L "h {count:1,sum:1,schema:0,zero_threshold:0,zero_count:0}"; L "# TYPE g gauge";
+                       L "g 1"; L "# TYPE k gauge"; L "k 1"].
+Example C15b_after_native_histogram_nonvacuous :
+  tlines ex_nh_then_back = ex_nh_a ++ L "a{x=""2""} 1 5" :: L "a{x=""2""} 2 4" :: [OM_EOF]
+  /\ tlines ex_nh_then_partial = ex_nh_a ++ L "a{x=""2""} 1 5" :: L "a{x=""2""} 2" :: [OM_EOF]
+  /\ tprefix om_st_init ex_nh_a [] = Ok (tstate ex_nh_a, tacc ex_nh_a)
+  /\ (exists s, tread (Some OM_histogram) (L "h {count:1,sum:1,schema:0,zero_threshold:0,zero_count:0}") = Ok (s, true))
+  /\ st_name (tstate ex_nh_a) = Some (L "a")
+  /\ om_typ_is (st_typ (tstate ex_nh_a)) OM_histogram = false
+  /\ mem_str (L "a") (st_allowed (tstate ex_nh_a)) = true
+  /\ tread (st_typ (tstate ex_nh_a)) (L "a{x=""2""} 1 5") = Ok (tsample (Some OM_gauge) (L "a{x=""2""} 1 5"), false)
+  /\ tread (st_typ (tstate ex_nh_a)) (L "a{x=""2""} 2 4") = Ok (tsample (Some OM_gauge) (L "a{x=""2""} 2 4"), false)
+  /\ tread (st_typ (tstate ex_nh_a)) (L "a{x=""2""} 2") = Ok (tsample (Some OM_gauge) (L "a{x=""2""} 2"), false)
+  /\ tparse ex_nh_then_back = Err ValueError /\ tparse ex_nh_then_partial = Err ValueError
+  (* the family switch after a native histogram: `g 2` inside family k *)
+  /\ tlines ex_nh_then_interleaved = ex_nh_k ++ L "g 2" :: [OM_EOF]
+  /\ tprefix om_st_init ex_nh_k [] = Ok (tstate ex_nh_k, tacc ex_nh_k)
+  /\ om_typ_is (st_typ (tstate ex_nh_k)) OM_histogram = false
+  /\ tread (st_typ (tstate ex_nh_k)) (L "g 2") = Ok (tsample (Some OM_gauge) (L "g 2"), false)
+  /\ mem_str (os_name (tsample (Some OM_gauge) (L "g 2"))) (st_allowed (tstate ex_nh_k)) = false
+  /\ tparse ex_nh_then_interleaved = Err ValueError.
+Proof.
+  do 3 (refine (conj _ _); [fin|]).
+  refine (conj _ _); [eexists; vm_compute; reflexivity|].
+  conjs; fin.
+Qed.
+
 (* an accepted document: exactly one '# EOF', the last line *)
 Example C15b_accepted_eof_unique_nonvacuous :
   is_ok (tparse ex_meta_late) = false
@@ -888,6 +985,45 @@ Proof.
 Qed.
 Print Assumptions C15_later_exposure_orig_refuted.
 
+(* KNOWN FINDING (known_findings.txt: c15_native_sample_foreign_name).  C15b_foreign_sample_switches_family needs
+   "not a histogram": inside a histogram family a line that reads as a native histogram is attached to the family in
+   progress WHATEVER ITS NAME (source: `if sample.name not in allowed_names and not is_nh`).  So a native sample of
+   family a may sit inside family b (interleaved families), and the metadata of a may follow a's sample when that
+   sample stands in another histogram family (late metadata): both documents are accepted. *)
+Definition ex_native_foreign := "# TYPE a histogram
+a {count:1,sum:1,schema:0,zero_threshold:0,zero_count:0}
+# TYPE b histogram
+b {count:1,sum:1,schema:0,zero_threshold:0,zero_count:0}
+a {count:2,sum:1,schema:0,zero_threshold:0,zero_count:0}
+# EOF
+"%string.
+Definition ex_native_late_type := "# TYPE b histogram
+b {count:1,sum:1,schema:0,zero_threshold:0,zero_count:0}
+a {count:2,sum:1,schema:0,zero_threshold:0,zero_count:0}
+# TYPE a histogram
+# EOF
+"%string.
+Definition ex_nf_pre := [L "# TYPE a histogram"; L "a {count:1,sum:1,schema:0,zero_threshold:0,zero_count:0}";
+                         L "# TYPE b histogram"; L "b {count:1,sum:1,schema:0,zero_threshold:0,zero_count:0}"].
+Definition ex_nf_line := L "a {count:2,sum:1,schema:0,zero_threshold:0,zero_count:0}".
+Theorem C15_native_sample_foreign_family_refuted :
+  (exists fams, tparse ex_native_foreign = Ok fams /\ length fams = 2%nat)
+  /\ (exists fams, tparse ex_native_late_type = Ok fams /\ length fams = 2%nat)
+  /\ tlines ex_native_foreign = ex_nf_pre ++ ex_nf_line :: [OM_EOF]
+  /\ tprefix om_st_init ex_nf_pre [] = Ok (tstate ex_nf_pre, tacc ex_nf_pre)
+  /\ (exists s, tread (st_typ (tstate ex_nf_pre)) ex_nf_line = Ok (s, true)
+                /\ mem_str (os_name s) (st_allowed (tstate ex_nf_pre)) = false)
+  /\ st_name (tstate (ex_nf_pre ++ [ex_nf_line])) = Some (L "b")
+  /\ length (st_samples (tstate (ex_nf_pre ++ [ex_nf_line]))) = 2%nat.
+Proof.
+  refine (conj _ _); [eexists; vm_compute; split; reflexivity|].
+  refine (conj _ _); [eexists; vm_compute; split; reflexivity|].
+  refine (conj _ _); [fin|]. refine (conj _ _); [fin|].
+  refine (conj _ _); [eexists; vm_compute; split; reflexivity|].
+  split; fin.
+Qed.
+Print Assumptions C15_native_sample_foreign_family_refuted.
+
 (* the state-level statements: a filled field, a clashing family in progress, an offending unit in progress *)
 Example C15b_state_hypotheses_nonvacuous :
   (st_name (tstate [L "# TYPE a gauge"; L "# HELP a x"]) = Some (L "a")
@@ -936,3 +1072,7 @@ Print Assumptions C15b_count_integral_document.
 Print Assumptions C15b_sample_line_group_rejected.
 Print Assumptions C15b_sample_line_step.
 Print Assumptions C15b_timestamps_two_lines.
+Print Assumptions C15b_native_flag_needs_histogram.
+Print Assumptions C15b_sample_line_group_rejected_any_flag.
+Print Assumptions C15b_timestamps_two_lines_after_any_prefix.
+Print Assumptions C15b_foreign_sample_switches_family.
